@@ -262,6 +262,41 @@ def install(reg):
     reg.handlers["Path"] = path_ctor
     reg.handlers["pathlib.Path"] = path_ctor
 
+    # ---- plain files: open(path, mode) as a context manager; pickle.load of a file that is an HDF5 container is not a pickle stream
+    def py_open(I, a, k, n):
+        return Obj("PyFile", {"path": a[0], "mode": a[1] if len(a) > 1 else k.get("mode", Str("r"))})
+    reg.handlers["open"] = py_open
+    reg.handlers["PyFile.__enter__"] = lambda I, a, k, n: a[0]
+    reg.handlers["PyFile.__exit__"] = lambda I, a, k, n: NONE
+
+    def pyfile_read(I, a, k, n):
+        f = a[0]
+        pth = f.f["path"]
+        key = skey(pth.f["s"]) if isinstance(pth, Obj) and pth.cls == "Path" else skey(pth)
+        if key in fs(I):
+            return Sym(z3.Const(fresh("raw_bytes_of_hdf5_file"), Misc), "bytes", {"hdf5_container": True})
+        raise Unsupported(f"read() of a plain file whose contents are not modelled ({key})")
+    reg.handlers["PyFile.read"] = pyfile_read
+
+    def pickle_load(I, a, k, n):
+        f = a[0]
+        if isinstance(f, Obj) and f.cls == "PyFile":
+            pth = f.f["path"]
+            key = skey(pth.f["s"]) if isinstance(pth, Obj) and pth.cls == "Path" else skey(pth)
+            if key in fs(I):
+                assumed(I, "pickle.load of an HDF5 container raises UnpicklingError (an HDF5 file does not start with a pickle opcode)")
+                raise RaiseSig("UnpicklingError", n)
+        raise Unsupported(f"pickle.load from {f!r}")
+    reg.handlers["pickle.load"] = pickle_load
+
+    def path_suffix(I, o, n):
+        nm = o.f.get("name")
+        if isinstance(nm, Str):
+            import pathlib
+            return Str(pathlib.PurePosixPath(nm.v).suffix)        # exact for a concrete name (case preserved, as pathlib does)
+        raise Unsupported("suffix of a path with a symbolic name")
+    reg.obj_props["Path.suffix"] = path_suffix
+
 
 class DumpPickleToHdf(Contract):
     qual = "utils:dump_pickle_to_hdf"
